@@ -53,7 +53,11 @@ var c10LocTypes = []string{models.ShardHash, models.ShardMod, models.ShardRange,
 var c10DateTypes = []string{models.ShardYear, models.ShardMonth, models.ShardDay}
 var c10SliceShapes = []string{"match", "shorter", "longer", "unknown", "repeat"}
 var c10DBShapes = []string{"match", "fewer", "more", "empty", "range", "badrange"}
-var c10DateShapes = []string{"single", "span", "desc-span", "overlap", "wrong-length", "bad-month", "non-numeric", "empty-list"}
+var c10DateShapes = []string{"single", "span", "desc-span", "overlap", "touching", "overlap-inner", "repeat-single", "single-then-span", "reversed-touching",
+	"wrong-length", "bad-month", "non-numeric", "empty-list"}
+
+// shapes in which neighbouring entries share a boundary period (end of one == start of the next)
+var c10TouchingShapes = []string{"touching", "overlap-inner", "repeat-single", "single-then-span", "reversed-touching"}
 var c10Defaults = []string{"present", "last", "empty", "unknown", "case"}
 
 func c10UsesDBs(t string) bool {
@@ -169,18 +173,34 @@ func c10Dates(typ, shape string, n int) []string {
 			"span":      {"2015-2016", "2018-2019", "2021-2023"},
 			"desc-span": {"2016-2015", "2019-2018", "2023-2021"},
 			"overlap":   {"2015-2017", "2016", "2016-2019"},
+			// the last year of an entry is the first year of the next one
+			"touching":          {"2014-2016", "2016-2018", "2018-2019"},
+			"overlap-inner":     {"2014-2016", "2015-2018", "2017-2019"},
+			"repeat-single":     {"2015", "2015", "2015"},
+			"single-then-span":  {"2015", "2015-2016", "2016"},
+			"reversed-touching": {"2016-2014", "2018-2016", "2019-2018"},
 		},
 		models.ShardMonth: {
-			"single":    {"201511", "201601", "201603"},
-			"span":      {"201511-201602", "201603-201604", "201611-201802"},
-			"desc-span": {"201602-201511", "201604-201603", "201802-201611"},
-			"overlap":   {"201511-201602", "201601", "201512-201603"},
+			"single":            {"201511", "201601", "201603"},
+			"span":              {"201511-201602", "201603-201604", "201611-201802"},
+			"desc-span":         {"201602-201511", "201604-201603", "201802-201611"},
+			"overlap":           {"201511-201602", "201601", "201512-201603"},
+			"touching":          {"201511-201601", "201601-201603", "201603-201604"},
+			"overlap-inner":     {"201511-201602", "201601-201603", "201602-201605"},
+			"repeat-single":     {"201512", "201512", "201512"},
+			"single-then-span":  {"201512", "201512-201601", "201601"},
+			"reversed-touching": {"201601-201511", "201603-201601", "201604-201603"},
 		},
 		models.ShardDay: {
-			"single":    {"20151230", "20160102", "20160229"},
-			"span":      {"20151230-20160102", "20160105-20160106", "20160227-20160301"},
-			"desc-span": {"20160102-20151230", "20160106-20160105", "20160301-20160227"},
-			"overlap":   {"20151230-20160102", "20160101", "20151231-20160105"},
+			"single":            {"20151230", "20160102", "20160229"},
+			"span":              {"20151230-20160102", "20160105-20160106", "20160227-20160301"},
+			"desc-span":         {"20160102-20151230", "20160106-20160105", "20160301-20160227"},
+			"overlap":           {"20151230-20160102", "20160101", "20151231-20160105"},
+			"touching":          {"20151230-20160101", "20160101-20160103", "20160103-20160104"},
+			"overlap-inner":     {"20151230-20160102", "20160101-20160103", "20160102-20160105"},
+			"repeat-single":     {"20160229", "20160229", "20160229"},
+			"single-then-span":  {"20151231", "20151231-20160101", "20160101"},
+			"reversed-touching": {"20160101-20151230", "20160103-20160101", "20160104-20160103"},
 		},
 	}
 	var src []string
@@ -829,6 +849,18 @@ func c10Enumerate(stride int, f func(sp c10Spec)) (total int) {
 	}
 	locs := c10AllLocations()
 	defaults := []string{"present", "empty", "unknown"}
+	// E0 (never strided, so the quick tier always has it): calendar rules whose neighbouring
+	// entries share a boundary period or repeat one
+	for _, typ := range c10DateTypes {
+		for _, ds := range c10TouchingShapes {
+			for nd := 2; nd <= 3; nd++ {
+				for _, ns := range []int{1, 3} {
+					n++
+					f(c10Spec{NSlices: ns, Default: "present", Rules: []c10RuleSpec{{Type: typ, DB: "db0", Table: "t1", NDates: nd, DateShape: ds, SliceShape: "match"}}})
+				}
+			}
+		}
+	}
 	// E1: one location-based rule: type x locations x slice shape x database shape
 	for ns := 1; ns <= 3; ns++ {
 		for _, def := range defaults {
@@ -961,7 +993,7 @@ func c10Enumerate(stride int, f func(sp c10Spec)) (total int) {
 // ---------------------------------------------------------------------------------------
 
 func TestVerif_C10(t *testing.T) {
-	rec := kit.Start("C10", "exploration", "namespace lattice: 1-3 slices x default slice {present,last,empty,unknown,case-variant} x 0-3 rules of every type (hash, mod, range, date_year/month/day, mycat_mod/long/string/murmur/padding_mod, global, linked, default, unknown) with locations from {-1,0,1,2,3}^<=3, slice lists {matching,shorter,longer,unknown,repeated}, database lists {matching,fewer,more,empty,range,bad range}, date ranges {single,span,descending,overlapping,wrong length,bad month,non-numeric,empty}, partition/murmur/padding parameters {valid and invalid variants}, table/parent names in varying case; thorough enumerates the sub-lattices E1-E5 and adds random multi-axis draws, quick strides through the same enumeration plus random draws; non-trivial = distinct structural descriptors of configurations that Verify() accepted")
+	rec := kit.Start("C10", "exploration", "namespace lattice: 1-3 slices x default slice {present,last,empty,unknown,case-variant} x 0-3 rules of every type (hash, mod, range, date_year/month/day, mycat_mod/long/string/murmur/padding_mod, global, linked, default, unknown) with locations from {-1,0,1,2,3}^<=3, slice lists {matching,shorter,longer,unknown,repeated}, database lists {matching,fewer,more,empty,range,bad range}, date ranges {single,span,descending,overlapping,touching (end of one == start of the next),overlapping by an inner period,repeated single period,single then span from it,reversed+touching,wrong length,bad month,non-numeric,empty}, partition/murmur/padding parameters {valid and invalid variants}, table/parent names in varying case; thorough enumerates the sub-lattices E0-E5 and adds random multi-axis draws, quick strides through the same enumeration plus random draws; non-trivial = distinct structural descriptors of configurations that Verify() accepted")
 	rec.Assume("loading by a proxy is represented by router.NewRouter on a namespace built from the same specification (what proxy/server/namespace.go calls after decoding the stored JSON)")
 	rec.Assume("a KeyError panic of a shard function is its designed rejection of a key; runtime-error panics and indexes outside the sub-table list refute clause (c); clause (c) is evaluated on a fixed grid of 21 integers and 8 strings")
 	rec.Assume("a configuration on which Verify() itself panics counts as not accepted (reported in coverage as verify_panics)")
